@@ -36,6 +36,7 @@ import (
 
 	_ "github.com/mattn/go-sqlite3"
 	"github.com/superfly/litefs"
+	lhttp "github.com/superfly/litefs/http"
 	"verif/cluster"
 	"verif/core"
 	"verif/drv"
@@ -86,6 +87,12 @@ func init() {
 		}
 		return 8
 	}, runKMountC10)
+	addKMount("C16", func(tier string) int {
+		if tier == "thorough" {
+			return 96
+		}
+		return 8
+	}, runKMountC16)
 	addKMount("C07", func(tier string) int {
 		if tier == "thorough" {
 			return 96
@@ -792,6 +799,7 @@ func runKMount(c *core.Case, variant string, k int) {
 	var stop atomic.Bool
 	var rwg sync.WaitGroup
 	var R *cluster.CNode
+	rrng := c.SubRng("reader-pacing")
 	startReader := func() {
 		R = cl.Nodes[1]
 		rproc, err := startSQLProc()
@@ -829,7 +837,7 @@ func runKMount(c *core.Case, variant string, k int) {
 				smu.Unlock()
 				// leave gaps: a reader that re-takes SHARED back to back starves the
 				// replica's apply (which polls for the exclusive lock)
-				time.Sleep(time.Duration(10+c.Rng.IntN(30)) * time.Millisecond)
+				time.Sleep(time.Duration(10+rrng.IntN(30)) * time.Millisecond)
 			}
 		}()
 	}
@@ -1232,12 +1240,12 @@ func runKMountC07(c *core.Case, k int) {
 	// the primary loses its lease inside a real SQLite transaction
 	how := []string{"expire", "demote"}[c.Rng.IntN(2)]
 	var blocked atomic.Bool
-	cl.Svc.Inject = func(node, op string) error {
+	cl.Svc.SetInject(func(node, op string) error {
 		if blocked.Load() && op == "acquire" {
 			return errors.New("scripted: unavailable")
 		}
 		return nil
-	}
+	})
 	pb := c07Snapshot(P.Node, "db")
 	if err := w.exec("BEGIN IMMEDIATE"); err != nil {
 		c.Violate("C07/kmount/primary-write", err.Error(), detail(nil))
@@ -2049,6 +2057,7 @@ func runKMountC10(c *core.Case, k int) {
 	}
 	var exports []export
 	var emu sync.Mutex
+	erng := c.SubRng("export-pacing")
 	var stop atomic.Bool
 	var wg sync.WaitGroup
 	wg.Add(1)
@@ -2069,7 +2078,7 @@ func runKMountC10(c *core.Case, k int) {
 				exports = append(exports, export{mon.PosKey{TXID: uint64(pos.TXID), Chk: uint64(pos.PostApplyChecksum)}, buf.Bytes(), err})
 			}
 			emu.Unlock()
-			time.Sleep(time.Duration(c.Rng.IntN(4)) * time.Millisecond)
+			time.Sleep(time.Duration(erng.IntN(4)) * time.Millisecond)
 		}
 	}()
 	steps := 50
@@ -2167,4 +2176,253 @@ func runKMountC10(c *core.Case, k int) {
 	}
 	c.Count("kmount_snapshot_joins_judged", 1)
 	c.Distinct(fmt.Sprintf("kmount/c10/%s/ps%d", mode, ps))
+}
+
+// runKMountC16: import and export with databases made and read by REAL SQLite.
+// A source database is built by SQLite in a plain directory (page sizes, both
+// header formats, auto_vacuum, free pages, overflow chains, vacuumed or not),
+// imported over HTTP, and then read by SQLite through the primary's and the
+// replica's kernel mounts: same rows, same bytes. SQLite then goes on writing,
+// and an export - opened by plain SQLite - must hold what the mount shows.
+func runKMountC16(c *core.Case, k int) {
+	if ok, why := kmountAvailable(); !ok {
+		c.Count("kmount_unavailable", 1)
+		if k == 0 {
+			c.Sample(map[string]any{"kmount": "unavailable", "why": why})
+		}
+		return
+	}
+	c.Count("kmount_cases", 1)
+	cl, err := cluster.New(c.Dir, []cluster.NodeOpts{{Candidate: true, KernelMount: true}, {KernelMount: true}})
+	if err != nil {
+		c.Inconclusive(err.Error())
+		return
+	}
+	defer cl.Close()
+	if err := cl.Start(0); err != nil || cl.WaitPrimary(0, 10*time.Second) == nil {
+		c.Inconclusive(fmt.Sprintf("primary start: %v", err))
+		return
+	}
+	if err := cl.Start(1); err != nil || !cl.WaitConnected(1, 10*time.Second) {
+		c.Inconclusive(fmt.Sprintf("replica start: %v", err))
+		return
+	}
+	P, R := cl.Nodes[0], cl.Nodes[1]
+	var hist []string
+	detail := func() map[string]any {
+		return map[string]any{"driver": "B (kernel mount + real SQLite)", "steps": hist, "primary_pos": mon.PosOf(P.Node, "db").String(), "replica_pos": mon.PosOf(R.Node, "db").String()}
+	}
+	fail := func(fp, what string) { c.Violate("C16/kmount/"+fp, what, detail()) }
+	proc, err := startSQLProc()
+	if err != nil {
+		c.Inconclusive("SQL child: " + err.Error())
+		return
+	}
+	defer proc.stop()
+	pdb, rdb := filepath.Join(P.MountDir(), "db"), filepath.Join(R.MountDir(), "db")
+	cli := lhttp.NewClient()
+	chain := &ltxChain{dir: filepath.Join(mon.DBDir(P.Node, "db"), "ltx")}
+	// makeSource builds a database with plain SQLite outside any mount
+	makeSource := func(tag string, ps int, walHeader bool) ([]byte, string, bool) {
+		path := filepath.Join(c.Dir, "src-"+tag+".db")
+		src, err := openLocalSQL(path, false)
+		if err != nil {
+			c.Inconclusive("source db: " + err.Error())
+			return nil, "", false
+		}
+		av := c.Rng.IntN(3)
+		qs := []string{fmt.Sprintf("PRAGMA page_size=%d", ps), fmt.Sprintf("PRAGMA auto_vacuum=%d", av), "PRAGMA journal_mode=delete",
+			"CREATE TABLE t0(id INTEGER PRIMARY KEY, k INTEGER, v BLOB)"}
+		for i := 1; i <= 4+c.Rng.IntN(6); i++ {
+			qs = append(qs, fmt.Sprintf("INSERT INTO t0 VALUES(%d,%d,randomblob(%d))", i, i, []int{20, 700, 5000, 30000}[c.Rng.IntN(4)]))
+		}
+		qs = append(qs, fmt.Sprintf("DELETE FROM t0 WHERE id%%3=%d", c.Rng.IntN(3)), "CREATE INDEX i0 ON t0(k)")
+		if c.Rng.IntN(3) == 0 {
+			qs = append(qs, "VACUUM")
+		}
+		if walHeader {
+			qs = append(qs, "PRAGMA journal_mode=wal", fmt.Sprintf("INSERT INTO t0 VALUES(1000,0,randomblob(%d))", 100+c.Rng.IntN(3000)), "PRAGMA wal_checkpoint(TRUNCATE)")
+		}
+		for _, q := range qs {
+			if strings.HasPrefix(q, "PRAGMA journal_mode") || strings.HasPrefix(q, "PRAGMA wal_checkpoint") {
+				_ = src.exec(q)
+				continue
+			}
+			if err := src.exec(q); err != nil {
+				src.close()
+				c.Inconclusive("source db: " + q + ": " + err.Error())
+				return nil, "", false
+			}
+		}
+		h, err := src.contentHash()
+		src.close()
+		b, rerr := os.ReadFile(path)
+		if err != nil || rerr != nil {
+			c.Inconclusive("source db read")
+			return nil, "", false
+		}
+		hist = append(hist, fmt.Sprintf("source %s: page size %d, auto_vacuum %d, wal header %v, %d bytes", tag, ps, av, walHeader, len(b)))
+		return b, h, true
+	}
+	judgeImported := func(ctx string, body []byte, wantHash string, ps int) bool {
+		if _, prob := chain.advance(); prob != "" {
+			fail("ltx-chain", ctx+": "+prob)
+			return false
+		}
+		// (an import resets the file change counter and the schema cookie of page 1
+		// so that existing connections reload: documented behaviour, also in C16's simulator cases)
+		norm := append([]byte(nil), body...)
+		if len(norm) >= 44 {
+			copy(norm[24:28], []byte{0, 0, 0, 0})
+			copy(norm[40:44], []byte{0, 0, 0, 0})
+		}
+		if d := chain.img.Diff(ref.ImageFromBytes(uint32(ps), norm)); d != "" {
+			fail("imported-image-differs", fmt.Sprintf("%s: the image rebuilt from the primary's transaction files differs from the imported file: %s", ctx, d))
+			return false
+		}
+		for _, nd := range []struct {
+			name, path string
+		}{{"primary", pdb}, {"replica", rdb}} {
+			if nd.name == "replica" {
+				if ok, _, timedOut := cl.WaitConverged(P, R, []string{"db"}, 8, 30*time.Second); timedOut {
+					c.Inconclusive("replica convergence watchdog")
+					return false
+				} else if !ok {
+					healthViolations(c, R.Node, ctx, detail())
+					if !c.Violated() {
+						fail("not-converged", fmt.Sprintf("%s: replica at %s, primary at %s", ctx, mon.PosOf(R.Node, "db"), mon.PosOf(P.Node, "db")))
+					}
+					return false
+				}
+			}
+			r, err := proc.open(nd.path, true)
+			if err != nil {
+				fail("open-after-import", fmt.Sprintf("%s: SQLite cannot open the imported database through the %s's mount: %v", ctx, nd.name, err))
+				return false
+			}
+			got, err := r.contentHash()
+			integ, ierr := r.queryString("PRAGMA integrity_check")
+			r.close()
+			if err != nil || got != wantHash {
+				fail("imported-content-differs", fmt.Sprintf("%s: through the %s's mount SQLite reads %s (%v), the imported database holds %s", ctx, nd.name, got, err, wantHash))
+				return false
+			}
+			if ierr != nil || integ != "ok" {
+				fail("imported-integrity", fmt.Sprintf("%s: integrity_check through the %s's mount: %q (%v)", ctx, nd.name, integ, ierr))
+				return false
+			}
+			c.Count("kmount_import_reads", 1)
+		}
+		return true
+	}
+	basePS := []int{1024, 4096, 512, 8192}[k%4]
+	rounds := 2 + c.Rng.IntN(2)
+	for round := 0; round < rounds; round++ {
+		ps := basePS
+		wantReject := false
+		if round > 0 && c.Rng.IntN(3) == 0 {
+			ps = []int{512, 2048, 16384}[c.Rng.IntN(3)]
+			wantReject = ps != basePS // another page size over a populated database must be refused
+		}
+		body, wantHash, ok := makeSource(fmt.Sprintf("r%d", round), ps, (k+round)%2 == 1)
+		if !ok {
+			return
+		}
+		before := mon.PosOf(P.Node, "db")
+		var beforeHash string
+		if before.TXID > 0 {
+			if r, err := proc.open(pdb, true); err == nil {
+				beforeHash, _ = r.contentHash()
+				r.close()
+			}
+		}
+		err := cli.Import(context.Background(), P.URL(), "db", bytes.NewReader(body))
+		hist = append(hist, fmt.Sprintf("import round %d (page size %d): %v", round, ps, err))
+		if healthViolations(c, P.Node, "import", detail()) {
+			return
+		}
+		if wantReject {
+			after := mon.PosOf(P.Node, "db")
+			if err == nil || after != before {
+				fail("other-page-size-accepted", fmt.Sprintf("an image with page size %d was imported over a populated database with page size %d: err=%v, position %s -> %s", ps, basePS, err, before, after))
+				return
+			}
+			if r, err := proc.open(pdb, true); err == nil {
+				h, _ := r.contentHash()
+				r.close()
+				if h != beforeHash {
+					fail("refused-import-changed-content", fmt.Sprintf("the refused import changed what SQLite reads: %s -> %s", beforeHash, h))
+					return
+				}
+			}
+			c.Count("kmount_imports_refused", 1)
+			continue
+		}
+		if err != nil {
+			fail("import-failed", fmt.Sprintf("import of a database made by SQLite (page size %d) failed: %v", ps, err))
+			return
+		}
+		if got := mon.PosOf(P.Node, "db"); got.TXID != before.TXID+1 {
+			fail("import-position", fmt.Sprintf("the import moved the position %s -> %s", before, got))
+			return
+		}
+		c.Count("kmount_imports", 1)
+		if !judgeImported(fmt.Sprintf("import round %d", round), body, wantHash, ps) {
+			return
+		}
+		// SQLite goes on writing on the imported database
+		w, err := proc.open(pdb, false)
+		if err != nil {
+			fail("open-after-import", err.Error())
+			return
+		}
+		for i := 0; i < 2+c.Rng.IntN(3); i++ {
+			q := fmt.Sprintf("INSERT INTO t0 VALUES(%d,%d,randomblob(%d))", 5000+round*100+i, round, 50+c.Rng.IntN(9000))
+			if err := w.exec(q); err != nil {
+				healthViolations(c, P.Node, q, detail())
+				if !c.Violated() {
+					fail("write-after-import-failed", fmt.Sprintf("%q after the import: %v", q, err))
+				}
+				w.close()
+				return
+			}
+			hist = append(hist, q)
+		}
+		cur, err := w.contentHash()
+		w.close()
+		if err != nil {
+			fail("read-error", err.Error())
+			return
+		}
+		if _, prob := chain.advance(); prob != "" {
+			fail("ltx-chain", "after writes on the imported database: "+prob)
+			return
+		}
+		// export: plain SQLite must read from it what the mount shows
+		rc, err := cli.Export(context.Background(), P.URL(), "db")
+		if err != nil {
+			fail("export-failed", err.Error())
+			return
+		}
+		exp, err := io.ReadAll(rc)
+		rc.Close()
+		if err != nil {
+			fail("export-failed", err.Error())
+			return
+		}
+		eh, integ, err := plainHash(c.Dir, ref.ImageFromBytes(uint32(ps), exp), fmt.Sprintf("exp%d", round))
+		if err != nil || integ != "ok" || eh != cur {
+			fail("export-differs", fmt.Sprintf("round %d: plain SQLite reads %s from the export (integrity %q, %v), the mount shows %s", round, eh, integ, err, cur))
+			return
+		}
+		if d := ref.ImageFromBytes(uint32(ps), exp).Diff(chain.img); d != "" {
+			fail("export-image-differs", "the exported bytes differ from the image rebuilt from the transaction files: "+d)
+			return
+		}
+		c.Count("kmount_exports_judged", 1)
+	}
+	c.Distinct(fmt.Sprintf("kmount/c16/ps%d/rounds%d", basePS, rounds))
+	if k < 2 {
+		c.Sample(detail())
+	}
 }
